@@ -521,6 +521,64 @@ def run_label_select(chk, spec):
 
 RUNNERS.update({"none_scalar": run_none_scalar, "label_select": run_label_select, "empty_selection": run_empty_selection, "table_2d": run_table_2d, "rows_held": run_rows_held, "compare_history": run_compare_history, "bigmask": run_bigmask})
 
+def run_table_index(chk, spec):
+	# t[i] follows Python sequence semantics too: the i-th row for -n <= i < n, IndexError otherwise - at the indexing, not later when
+	# a cell of the returned row is read
+	ts, i = spec["table"], spec["i"]
+	t = common.mk_table(ts)
+	n = len(ts["cols"][0])
+	o = call(lambda: t[i])
+	chk.judged("table-rows", ("tindex", n, len(ts["cols"]), i))
+	if not -n <= i < n:
+		if o.ok:
+			chk.fail("an out-of-range row index raises", "table-index/out-of-range-accepted", f"{spec!r}: t[{i}] returned {type(o.value).__name__} of length {call(lambda: len(o.value))!r}")
+		elif not isinstance(o.exc, IndexError):
+			chk.fail("an out-of-range row index raises IndexError", f"table-index/out-of-range/{type(o.exc).__name__}", f"{spec!r}: t[{i}] raised {o!r}")
+		return
+	if not o.ok:
+		chk.fail("t[i] is the i-th row", f"table-index/raises/{type(o.exc).__name__}", f"{spec!r}: t[{i}] raised {o!r}")
+		return
+	got = call(lambda: list(o.value))
+	exp = [c[i] for c in ts["cols"]]
+	if not got.ok or not M.same_list(got.value, exp):
+		chk.fail("t[i] is the i-th row", "table-index/wrong-row", f"{spec!r}: t[{i}] -> {got!r}, columns give {exp!r}")
+
+
+RUNNERS.update({"table_index": run_table_index})
+
+def run_self_compare(chk, spec):
+	# x <op> x, the object itself on both sides (a vector, a row kept from a table, a whole table): the same answer as x <op> (an equal,
+	# separate object) - the library copies an operand that is the left operand itself, and that copy has to work for every kind of vector
+	import operator, warnings
+	op = getattr(operator, spec["opname"])
+	ts = spec["table"]
+	t = common.mk_table(ts)
+	target = spec["target"]
+	with warnings.catch_warnings():
+		warnings.simplefilter("ignore")
+		if target == "table":
+			x, twin = t, common.mk_table(ts)
+		elif target == "row":
+			x, twin = t[spec["i"]], common.mk_table(ts)[spec["i"]]
+		else:
+			x, twin = t.cols()[spec["i"] % len(ts["cols"])], common.mk_table(ts).cols()[spec["i"] % len(ts["cols"])]
+		o = call(lambda: op(x, x))
+		e = call(lambda: op(x, twin))
+	chk.judged("compare", ("self-compare", target, spec["opname"], len(ts["cols"]), len(ts["cols"][0])))
+	flat = (lambda r: [list(c) for c in r.cols()]) if target == "table" else (lambda r: list(r))
+	if not e.ok:
+		if o.ok:
+			chk.fail("x <op> x answers as x <op> an equal object does", f"compare/self/accepted/{target}", f"{spec!r}: with an equal object it raises {e!r}, with itself it gives {short(o.value, 100)}")
+		return
+	if not o.ok:
+		chk.fail("comparison is computed elementwise by Python's comparison", f"compare/self/raises/{target}/{type(o.exc).__name__}", f"{spec!r}: x {spec['opname']} x raised {o!r}; with an equal separate object: {short(flat(e.value), 120)}")
+		return
+	if flat(o.value) != flat(e.value):
+		chk.fail("x <op> x answers as x <op> an equal object does", f"compare/self/value/{target}", f"{spec!r}: {short(flat(o.value), 120)} vs {short(flat(e.value), 120)}")
+
+
+RUNNERS.update({"self_compare": run_self_compare})
+
 
 def run(chk):
 	recompute.add_cases(chk, "C07")
@@ -653,6 +711,10 @@ def run(chk):
 		ts = gen_table(rng)
 		n = len(ts["cols"][0])
 		chk.case("table_rows", {"table": ts, "rows": gen_rows(rng, n, allow_wrong=True)}, "table-rows")
+		if n and len(set(ts["names"])) == len(ts["names"]):
+			chk.case("self_compare", {"table": ts, "target": rng.choice(["table", "row", "column"]), "i": rng.randrange(n), "opname": rng.choice(["eq", "ne", "lt", "le", "gt", "ge"])}, "compare")
+		if n:
+			chk.case("table_index", {"table": ts, "i": rng.choice([-n - 2, -n - 1, -n, -1, 0, n - 1, n, n + 1, n + 5, rng.randrange(-n, n)])}, "table-rows")
 		rows = gen_rows(rng, n)
 		k = rng.choice([1, 1, 2, 3])
 		cols = [rng.choice(ts["names"]) for _ in range(k)]
